@@ -3,6 +3,7 @@ from __future__ import annotations
 
 import logging
 import signal
+import time
 import tracemalloc
 
 from hypothesis import strategies as st
@@ -72,10 +73,12 @@ def oracle(case) -> Info:
         tracemalloc.start()
     old = signal.signal(signal.SIGALRM, _alarm)
     signal.alarm(30)
+    cpu0 = time.process_time()
     try:
         try:
             res, calls, lines = budget.run(call, max_calls=max_calls, max_lines=max_lines)
         finally:
+            cpu = time.process_time() - cpu0
             signal.alarm(0)
             signal.signal(signal.SIGALRM, old)
             peak = None
@@ -98,6 +101,27 @@ def oracle(case) -> Info:
         fail(f"[{tag}] {entry} with remembered decoder {prime}: {type(exc).__name__}: {exc!s:.120} escaped (innermost han frame {where}); input {payload.hex()[:400]}", sig=f"raise:{type(exc).__name__}:{where}")
     if res is not None and not isinstance(res, dict):
         fail(f"[{tag}] {entry}: returned {type(res).__name__}", sig="type")
+    cpu_budget = 0.75 + 0.002 * n  # seconds of CPU time of this process; normal need is ~0.005 s
+    if cpu > cpu_budget:
+        # time spent inside C code (Decimal, int, re) is invisible to the event budgets: confirm by running the call again
+        ad2 = primed(prime)
+        call2 = make_call(ad2, entry, payload)
+        signal.signal(signal.SIGALRM, _alarm)
+        signal.alarm(60)
+        try:
+            c0 = time.process_time()
+            try:
+                call2()
+            except Exception:  # noqa: BLE001
+                pass
+            cpu2 = time.process_time() - c0
+        except _Inconclusive:
+            cpu2 = 60.0
+        finally:
+            signal.alarm(0)
+            signal.signal(signal.SIGALRM, old)
+        if cpu2 > cpu_budget:
+            fail(f"[{tag}] {entry} with remembered decoder {prime}: {cpu:.2f} s and again {cpu2:.2f} s of CPU time for a {n}-byte input {payload!r:.120} (budget {cpu_budget:.2f} s; genuine messages need ~0.005 s)", sig="cpu-time")
     if mem and peak is not None and peak > 2 * 1024 * 1024 + 8192 * n:
         fail(f"[{tag}] {entry}: tracemalloc peak {peak} bytes for a {n}-byte input {payload!r:.200}", sig="memory")
     classes = [f"tag:{tag}", f"entry:{entry}", "result:" + ("dict" if isinstance(res, dict) else "None"), f"prime:{prime}"]
@@ -177,7 +201,7 @@ _op = st.one_of(
 )
 
 _ascii_tok = st.sampled_from(
-    ["1.8.0", "1-0:1.8.0", "0-0:1.0.0", "(", ")", "(123)", "(123*kWh)", "*kWh", "*", "xyz", "\r\n", "\n", "(2102221619", "00W)", "!", "))", "((", "()", "1.8.0(123)xyz", "(1*2*3)", "1.0.0(xx)", "1.0.0(9913320000)", "abc(1)", "(1)", ":", "-", ".", "1.8.0(1e999*kW)", "1.8.0(nan*kW)", "1.8.0(*kW)", "1.8.0(1)(2", "999.999.999(1)", "1.8(1)", " ", "\t"]
+    ["1.8.0", "1-0:1.8.0", "0-0:1.0.0", "(", ")", "(123)", "(123*kWh)", "*kWh", "*", "xyz", "\r\n", "\n", "(2102221619", "00W)", "!", "))", "((", "()", "1.8.0(123)xyz", "(1*2*3)", "1.0.0(xx)", "1.0.0(9913320000)", "abc(1)", "(1)", ":", "-", ".", "1.8.0(1e999*kW)", "1.8.0(nan*kW)", "1.8.0(1E300000*kWh)", "1.8.0(9e99999*kvarh)", "(1E999990*kWh)", "3.8.0(1e-999999*kvarh)", "1.7.0(0x1F*kW)", "1.7.0(1_0*kW)", "32.7.0(1E400000*V)", "1.8.0(*kW)", "1.8.0(1)(2", "999.999.999(1)", "1.8(1)", " ", "\t"]
 ) | st.text(alphabet="0123456789.()*-:kWhVA \r\n", max_size=8)
 
 
@@ -227,7 +251,7 @@ def build() -> Check:
             "genuine message of that decoder) and an entry point drawn from decode_message_payload, decode_message(DlmsMessage), "
             "decode_message(reader-produced HdlcFrame), decode_message(DataReadout). truncations: EVERY truncation of every pool message "
             "(enumerated). Oracle: result is dict or None, no exception escapes, deterministic budgets hold: line events in han/ <= "
-            "5000+100n+n^2/4, Python calls <= 50000+3000n (sys.monitoring), tracemalloc peak <= 2 MiB + 8 KiB*n on all ASCII cases and a 1-in-20 "
+            "5000+100n+n^2/4, Python calls <= 50000+3000n (sys.monitoring), CPU time <= 0.75 s + 2 ms*n (twice), tracemalloc peak <= 2 MiB + 8 KiB*n on all ASCII cases and a 1-in-20 "
             "sample. Non-trivial = mutated/truncated genuine message that some decoder grammar still parses (or that decodes), or an ASCII "
             "fragment containing a parenthesis. Failures are bucketed by (exception type, innermost han function). coverage-guided: atheris "
             "(libFuzzer) campaigns with han/ instrumented on the same oracle, half from an empty corpus and half seeded with the pool; "
@@ -236,7 +260,7 @@ def build() -> Check:
         assumptions=[
             "Budgets are deterministic counters, not wall-clock; a 30 s SIGALRM backstop only marks a case inconclusive (class INCONCLUSIVE-30s-backstop).",
             "Measured need on genuine messages: <= 64 calls and <= 13 line events per input byte; the budgets leave > x40 headroom.",
-            "Time spent inside C code (regular expressions, int()) is not counted by the budgets.",
+            "Time spent inside C code (regular expressions, int(), Decimal) is not counted by the event budgets; it is bounded separately by a CPU-time budget of 0.75 s + 2 ms/byte (process_time, ~150x the normal need), reported only if a second run of the same call exceeds it too.",
         ],
         clauses=[
             HypClause("inputs", case_st, oracle, quick=16000, thorough=600000),
